@@ -30,13 +30,30 @@ def maxTakenGlobal (p : Program) : Nat :=
     | some n => if n > m then n else m
     | none => m) 0
 
-/-- `choose_fresh_global_variables`. The Rust addition `max_taken_var + i` is overflow-checked
-    in the dev profile: see `globalsPanic`. -/
-def chooseFreshGlobals (p : Program) : List String :=
-  (List.range' 1 (maxHeadArity p)).map fun i => "V" ++ toString (maxTakenGlobal p + i)
+/-- the fallback loop of `choose_fresh_global_variables`: first index from `k` whose name `V<index>` is
+    not in `occ` -/
+def findFreeGlobal (occ : List String) : Nat → Nat → Nat
+  | 0, k => k
+  | fuel + 1, k => if ("V" ++ toString k) ∈ occ then findFreeGlobal occ fuel (k + 1) else k
 
-def globalsPanic (p : Program) : Bool :=
-  maxHeadArity p ≥ 1 && maxTakenGlobal p + maxHeadArity p > usizeMax
+/-- the loop over `i in 1..=max_arity`: `V<max+i>` while the index fits `usize`, afterwards the smallest
+    indices that are neither variables of the program nor chosen already (`nf` is `next_free`) -/
+def freshGlobalsLoop (taken : List String) (max : Nat) : List Nat → Nat → List String → List String
+  | [], _, acc => acc
+  | i :: is, nf, acc =>
+    if max + i ≤ usizeMax then freshGlobalsLoop taken max is nf (acc ++ ["V" ++ toString (max + i)])
+    else
+      let k := findFreeGlobal (taken ++ acc) ((taken ++ acc).length + 1) (nf + 1)
+      freshGlobalsLoop taken max is k (acc ++ ["V" ++ toString k])
+
+/-- `choose_fresh_global_variables` (since the fix of the index overflow: `checked_add`, with the
+    smallest unused indices as fallback). -/
+def chooseFreshGlobals (p : Program) : List String :=
+  freshGlobalsLoop p.vars (maxTakenGlobal p) (List.range' 1 (maxHeadArity p)) 0 []
+
+/-- the overflow of `max_taken_var + i` used to panic; it no longer does (kept so that the statements
+    that carry "no overflow" as a hypothesis read as before: the hypothesis is now always true) -/
+def globalsPanic (_p : Program) : Bool := false
 
 /-- `Display` of a `fol::Variable` (what `var.to_string()` yields). -/
 def Var.display (v : Var) : String :=
